@@ -302,16 +302,19 @@ func (n *ProcessorNode) Reconfigure(ctx context.Context, newProcessor Processor)
 	case err := <-done:
 		return err
 	case <-ctx.Done():
-		// Caller gave up. Best-effort withdraw so a later reconfigure isn't
-		// blocked; if Run already claimed the request, this is a no-op and the
-		// swap still completes (done is buffered, so Run never blocks delivering
-		// its now-ignored result).
+		// Caller gave up. Withdraw the request so a later reconfigure isn't
+		// blocked. If Run already claimed the request it can no longer be
+		// withdrawn: the swap is being applied, so report what becomes of it.
+		// Returning ctx.Err() then would tell the caller "not applied" (and make
+		// it restore the stored config) while the new processor goes live.
 		n.swapMu.Lock()
 		if n.pending != nil && n.pending.done == done {
 			n.pending = nil
+			n.swapMu.Unlock()
+			return ctx.Err()
 		}
 		n.swapMu.Unlock()
-		return ctx.Err()
+		return <-done
 	}
 }
 
